@@ -16,6 +16,40 @@ CHECKS = {
           "64*n*p*kappa*u. The model is the input lattice; depth 1 is right for a pure routine.",
           "Inputs off the lattice, n > 6, TPU precision modes are not covered; the slack constant is empirical; honesty is not judged "
           "beyond kappa_reg 1e8 or in float32.", "DESIGN.md §4 C01"),
+  "C02": ("explicit-state BFS over all gradient histories up to depth T through the real distributed_shampoo update for every "
+          "configuration within deviation k of the base configuration, lock-step with an independent float64 reference model "
+          "(stage-wise: statistics, then update)",
+          "Every configuration within 1 (quick) / 2 (thorough) deviations of the base over 22 arithmetic options (all 7 graft types, "
+          "beta1/beta2 incl. 1.0, nesterov, moving-average momentum, weight decay x decoupling, lr decoupling/schedule, block size incl. 1, "
+          "merging, preconditioner type, exponent override, start step, both intervals, skip thresholds, eigh, relative/absolute epsilon) "
+          "plus 15 interacting pairs, on two parameter trees (ranks 0-3; a rank-4 tree in thorough), replicated and sharded, is driven "
+          "through all histories over {gA,gB} of length <= 4 (5 with g0 in thorough). After every transition the stored statistics are "
+          "compared with w1*L+w2*G_(i)G_(i)^T (2e-6) and every update leaf with the documented formula evaluated in float64 on the "
+          "stored statistics (2e-4).",
+          "The ridge actually used is taken from the reported diagnostics and the accept/keep decision from the reported error (C01 and "
+          "C03 judge those); graft NONE with coupled learning rate is excluded as undefined by the documentation; block sizes > 4 and "
+          "other trees are not covered.", "DESIGN.md §4 C02"),
+  "C03": ("TLC model checking of the TLA+ refresh/gate protocol with fault events + replay of every path on the implementation, and "
+          "explicit-state BFS over all bounded fault histories for the cross product of modes, thresholds, ridge and root methods",
+          "(a) TLC enumerates RefreshProtocol (S,P in {1,2}, modes replicated / pmap+int16 / sharded, events {ok,nan}, <=2 nan, T=5; "
+          "thorough S,P in 1..3, <=3 nan, T=6); every path of the dumped graph is replayed on the real optimizer and a poisoned statistic "
+          "must never change the stored preconditioner. (b) BFS over every history over {gA, g0, NaN, Inf, 2^40, 2^-40, 2^100} of length "
+          "<= 3 (4) with <= 2 (3) fault events for mode x threshold {0,1e-30,0.1,1e30} x epsilon {1e-6,0} x {Newton,eigh} x interval "
+          "{1,2} x {float32,float64}: after every transition each stored preconditioner is bit-identical to before or (refresh step and "
+          "reported error finite and below the threshold); all stored preconditioner leaves finite; updates finite on histories of "
+          "finite moderate gradients.",
+          "Fault values beyond the seven classes and fault positions inside a tensor (one fixed entry) are not covered; one known "
+          "finding (gate disabled + zero ridge + 1e24 scale jump, sharded) is listed in known_findings.json.", "DESIGN.md §4 C03"),
+  "C04": ("TLC model checking of the TLA+ RefreshProtocol over the whole (S, P, start, mode, schedule) grid + replay of every path of "
+          "the dumped state graph against Distributed Shampoo and Tearfree; TLC's counts cross-checked against the Python explorer",
+          "TLC explores the version-level protocol model for (S,P) in {1,2,3}^2 x start {0,1,2,4} x {replicated, pmap+int16-quantized, "
+          "sharded}, two lr-scheduled interval tables over 24 (40) steps, and Tearfree Shampoo/Sketchy grids (thorough: intervals to 4, "
+          "events {ok, zero}); model invariants are checked by TLC and every path is replayed on the real optimizers: counters advance "
+          "by one, statistics/preconditioner/diagnostic leaves change bitwise exactly when the model's versions change, refreshed "
+          "preconditioners are the root of the statistics current at that step, warm-up updates equal the graft-only run (1e-6) and "
+          "later ones the preconditioned formula with the stored (sharded: previous) preconditioner.",
+          "The model abstracts values to versions; schedules outside the two tabulated ones and horizons > 40 are not covered.",
+          "DESIGN.md §4 C04"),
   "C06": ("explicit-state enumeration (depth 1) of every tensor shape of rank 0..5 with dims 1..B x block sizes x merge limits x "
           "preconditioner types x compression rank through the real shape routines on index-valued tensors",
           "All 364 (quick, B=3) / 1365+ (thorough, B=4) shapes crossed with block sizes 0..B+1, 7 merge limits, 3 preconditioner types "
@@ -81,7 +115,7 @@ def main():
         "thorough_cmd": "./check %s --tier thorough" % pid,
         "evidence_file": "/verif/evidence/%s.json" % pid,
         "replay_cmd_template": "./check %s --replay {path}" % pid,
-        "engine": "mcx",
+        "engine": "tlc-replay" if pid in ("C03", "C04") else "mcx",
         "level_claimed": {"category": "model_checking", "text": text, "design_ref": ref},
         "level_note": note,
         "technique": tech,
@@ -99,6 +133,8 @@ def main():
       "add_only": True,
     },
     "engines": [
+      {"name": "tlc-replay", "path": "mc/tla/RefreshProtocol.tla + mc/tlc.py + mc/replay.py", "serves_properties": ["C03", "C04"],
+       "kind_free_text": "TLA+ model of the refresh/gate protocol, explored by TLC (state graph dumped with action labels); every path is replayed against the real optimizers by mc/replay.py; TLC's distinct-state and edge counts are cross-checked against the Python explorer on the same automaton"},
       {"name": "mcx", "path": "mc/", "serves_properties": sorted(CHECKS),
        "kind_free_text": "hand-written explicit-state explorer: BFS over the real transition function of the optimizers (immutable JAX pytrees as states, bit-exact canonical hashing) with lock-step NumPy float64 reference models; depth-1 instances for pure routines; 16 fresh worker processes"},
     ],
